@@ -1,6 +1,7 @@
 import Firefly.Proof.AmlNestParse
 /-!
-C11, the nested fragment, end to end: `Device(NAME){…}` (to any depth) around `Name(NAME, integer)` declarations — the
+C11, the nested fragment, end to end: `Device(NAME){…}` / `ThermalZone(NAME){…}` / `Processor(NAME, …){…}` / `PowerResource(NAME, …){…}`
+(to any depth) around `Name(NAME, integer | string)`, `Event(NAME)` and `Mutex(NAME, sync)` declarations — the
 namespace read off the tree the parser builds is the namespace ACPI's scoping rules assign to the program.
 -/
 namespace Firefly.AmlParser.F
@@ -9,12 +10,28 @@ open Firefly.Gen.C12 Firefly.AmlProg Firefly.AmlNs
 
 /-! ## what `nsWalk` reads off a connected node -/
 
+/-- the namespace entry of a `Name` declaration -/
+def nameDesc (dv : DVal) : String := s!"name:{dv.desc}"
+
+theorem nameDesc_int (w v : Nat) : nameDesc (.int w v) = entryDesc w v := rfl
+
+/-- the values the constant arguments hold: reduced to their widths -/
+def rvals : List Nat → List Nat → List Nat
+  | n :: ws, v :: vs => v % 256 ^ n :: rvals ws vs
+  | _, _ => []
+
+/-- the description of a leaf named object in the namespace -/
+def ldesc : LKind → List Nat → String
+  | .event, _ => "event"
+  | .mutex, vs => s!"mutex:{vs.getD 0 0}"
+
 mutual
 /-- the namespace entries of a node below the path `π` (with the pool position of the named object) -/
 def entsN (π : AmlProg.Path) : Node → List (AmlProg.Path × String × Nat)
-  | .name x _ _ _ q => [(π ++ [nameStr (Name.ofList (q.segs.headD []))], entryDesc q.w q.v, x)]
-  | .dev x _ _ _ _ seg kids =>
-    (π ++ [nameStr (Name.ofList seg)], "device", x) :: entsL (π ++ [nameStr (Name.ofList seg)]) kids
+  | .name x _ _ _ seg dv => [(π ++ [nameStr (Name.ofList seg)], nameDesc dv, x)]
+  | .dev kd x _ _ _ _ seg es kids =>
+    (π ++ [nameStr (Name.ofList seg)], kd.tag (rvals kd.ws (es.map (·.v))), x) :: entsL (π ++ [nameStr (Name.ofList seg)]) kids
+  | .leaf kd x _ _ seg es => [(π ++ [nameStr (Name.ofList seg)], ldesc kd (rvals kd.ws (es.map (·.v))), x)]
 def entsL (π : AmlProg.Path) : List Node → List (AmlProg.Path × String × Nat)
   | [] => []
   | n :: ns => entsN π n ++ entsL π ns
@@ -45,20 +62,14 @@ theorem nsStep_leaf {t : ObjectTree} (tables : Array Bytes) (f i : Nat) (path : 
   simp only [if_neg hop, hd]
   exact nsWalk_leaf t tables f c path hk
 
-theorem treeDesc_dev (t : ObjectTree) (tables : Array Bytes) (c : Nat) (o : AmlTree.Obj) (h : o.opcode = 385) :
-    treeDesc t tables c o = some "device" := by
-  unfold treeDesc
-  rw [h]
-  simp
-
 /-- what `nsWalk` sees at a connected `Name` object -/
-theorem walk_name {d : Bytes} {t : ObjectTree} {h p x c k off : Nat} {q : Decl} (io : NameT d t h p x c k off q true)
-    (tables : Array Bytes) (f : Nat) (path : AmlProg.Path) :
+theorem walk_name {d : Bytes} {t : ObjectTree} {h p x c k off : Nat} {seg : List UInt8} {dv : DVal}
+    (io : NameT d t h p x c k off seg dv true) (tables : Array Bytes) (f : Nat) (path : AmlProg.Path) :
     nsWalk t tables (f + 2) x path = [] ∧ callWalk t (f + 2) x = [] ∧
-    treeDesc t tables x (slot t x) = some (entryDesc q.w q.v) := by
+    (tables.getD (h - 1) #[] = d → treeDesc t tables x (slot t x) = some (nameDesc dv)) := by
   have hk : K t x = [c, k] := io.kx
   obtain ⟨c1, c2, c3⟩ := treeDesc_path t tables c (slot t c) io.opc
-  obtain ⟨k1, k2, k3, k4, k5, k6⟩ := treeDesc_const t tables k (slot t k) _ _ io.opk
+  obtain ⟨k1, k2, k3⟩ := treeDesc_dval t tables k (slot t k) dv io.opk
   refine ⟨?_, ?_, ?_⟩
   · rw [nsWalk]
     show (K t x).flatMap _ = []
@@ -70,62 +81,200 @@ theorem walk_name {d : Bytes} {t : ObjectTree} {h p x c k off : Nat} {q : Decl} 
     rw [hk]
     simp only [List.flatMap_cons, List.flatMap_nil, List.append_nil, pool_live io.lc, pool_live io.lk, if_neg c3, if_neg k3,
       callWalk_leaf t f _ io.kc, callWalk_leaf t f _ io.kk, List.append_nil]
-  · unfold treeDesc entryDesc
+  · intro htab
+    unfold treeDesc nameDesc
     have hko : kidsOf t x = [c, k] := hk
     simp only [io.opx, hko, if_true]
     have : ([c, k] : List Nat).getD 1 4294967295 = k := rfl
-    rw [this]
-    have : treeDataDesc t tables 64 k = intOf t k := by
-      rw [show (64 : Nat) = 63 + 1 from rfl, treeDataDesc, pool_live io.lk]
-      simp only [if_neg k4, if_neg k5, if_neg k6]
-    rw [this, intOf_eq io.lk io.int]
+    rw [this, treeData_dval tables io.lk io.opk io.dat (by rw [io.thk]; exact htab)]
+
+/-- the value `u64Of` reads from a constant argument object -/
+theorem u64Of_const {t : ObjectTree} {h x : Nat} {a : CArg} (c : ConstT t h x a) (hn : a.n = 1 ∨ a.n = 2 ∨ a.n = 4) :
+    u64Of t a.e = toString (a.v % 256 ^ a.n) := by
+  unfold u64Of
+  rw [pool_live c.le]
+  have hop := c.op
+  have hv : (slot t a.e).value = .u64 (a.v % 256 ^ a.n) := by
+    have hi : intVal a.n a.v = a.v % 256 ^ a.n := by
+      unfold intVal
+      rcases hn with e | e | e <;> rw [e] <;> simp
+    rcases c.int with ⟨h1, _⟩ | ⟨h1, _⟩ | ⟨h1, _⟩ | ⟨_, _, _, h4⟩
+    · rw [h1] at hop; rcases hn with e | e | e <;> rw [e] at hop <;> simp [constOp] at hop
+    · rw [h1] at hop; rcases hn with e | e | e <;> rw [e] at hop <;> simp [constOp] at hop
+    · rw [h1] at hop; rcases hn with e | e | e <;> rw [e] at hop <;> simp [constOp] at hop
+    · rw [h4, hi]
+  simp only [hv]
+
+/-- what `nsWalk` and `callWalk` see at a constant argument object -/
+theorem const_leaf {t : ObjectTree} {h x : Nat} {a : CArg} (c : ConstT t h x a) (tables : Array Bytes) :
+    treeDesc t tables a.e (slot t a.e) = none ∧ (slot t a.e).opcode ≠ 0x1f6 ∧ (slot t a.e).opcode ≠ 0x1fd := by
+  obtain ⟨k1, k2, k3, _⟩ := treeDesc_const t tables a.e (slot t a.e) _ _ c.op
+  exact ⟨k1, k2, k3⟩
+
+theorem treeDesc_leaf {d : Bytes} {t : ObjectTree} {h p : Nat} {kd : LKind} {x c off : Nat} {seg : List UInt8} {es : List CArg}
+    (lt : LeafT d t h p kd x c off seg es true) (tables : Array Bytes) :
+    treeDesc t tables x (slot t x) = some (ldesc kd (rvals kd.ws (es.map (·.v)))) := by
+  unfold treeDesc
+  have hko : kidsOf t x = c :: es.map (·.e) := lt.kx
+  rw [lt.opx]
+  cases kd with
+  | event => simp [LKind.op, ldesc]
+  | mutex =>
+    have hws := lt.wsok
+    simp only [LKind.ws] at hws
+    obtain ⟨a, rfl⟩ : ∃ a, es = [a] := by
+      cases es with
+      | nil => simp at hws
+      | cons a as =>
+        cases as with
+        | nil => exact ⟨a, rfl⟩
+        | cons b bs => simp at hws
+    have ha : a.n = 1 := by simpa using hws
+    have := u64Of_const (lt.args a (by simp)) (Or.inl ha)
+    simp only [LKind.op, hko, List.map_cons, List.map_nil, ldesc, LKind.ws, rvals]
+    simp only [this, ha, List.getD_cons_succ, List.getD_cons_zero]
+    rfl
+
+theorem len3 {α : Type} {l : List α} (h : l.length = 3) : ∃ a b c, l = [a, b, c] := by
+  cases l with
+  | nil => cases h
+  | cons a l =>
+    cases l with
+    | nil => cases h
+    | cons b l =>
+      cases l with
+      | nil => cases h
+      | cons c l =>
+        cases l with
+        | nil => exact ⟨a, b, c, rfl⟩
+        | cons _ _ => simp at h
+
+theorem len2 {α : Type} {l : List α} (h : l.length = 2) : ∃ a b, l = [a, b] := by
+  cases l with
+  | nil => cases h
+  | cons a l =>
+    cases l with
+    | nil => cases h
+    | cons b l =>
+      cases l with
+      | nil => exact ⟨a, b, rfl⟩
+      | cons _ _ => simp at h
+
+theorem treeDesc_dev {d : Bytes} {t : ObjectTree} {h p : Nat} {kd : BKind} {x c sb off : Nat} {seg : List UInt8} {es : List CArg}
+    (dt : DevT d t h p kd x c sb off seg es true) (tables : Array Bytes) :
+    treeDesc t tables x (slot t x) = some (kd.tag (rvals kd.ws (es.map (·.v)))) := by
+  unfold treeDesc
+  have hko : kidsOf t x = c :: (es.map (·.e) ++ [sb]) := dt.kx
+  rw [dt.opx]
+  have hws := dt.wsok
+  cases kd with
+  | device => simp [BKind.op, BKind.tag]
+  | thermal => simp [BKind.op, BKind.tag]
+  | proc =>
+    simp only [BKind.ws] at hws
+    obtain ⟨a1, a2, a3, rfl⟩ : ∃ a1 a2 a3, es = [a1, a2, a3] :=
+      len3 (by have := congrArg List.length hws; simpa using this)
+    simp only [List.map_cons, List.map_nil, List.cons.injEq, and_true] at hws
+    have u1 := u64Of_const (dt.args a1 (by simp)) (Or.inl hws.1)
+    have u2 := u64Of_const (dt.args a2 (by simp)) (Or.inr (Or.inr hws.2.1))
+    have u3 := u64Of_const (dt.args a3 (by simp)) (Or.inl hws.2.2)
+    simp only [BKind.op, hko, List.map_cons, List.map_nil, BKind.tag, BKind.ws, rvals, List.cons_append, List.nil_append]
+    simp [List.getD_cons_succ, List.getD_cons_zero, u1, u2, u3, hws.1, hws.2.1, hws.2.2]
+    rfl
+  | power =>
+    simp only [BKind.ws] at hws
+    obtain ⟨a1, a2, rfl⟩ : ∃ a1 a2, es = [a1, a2] :=
+      len2 (by have := congrArg List.length hws; simpa using this)
+    simp only [List.map_cons, List.map_nil, List.cons.injEq, and_true] at hws
+    have u1 := u64Of_const (dt.args a1 (by simp)) (Or.inl hws.1)
+    have u2 := u64Of_const (dt.args a2 (by simp)) (Or.inr (Or.inl hws.2))
+    simp only [BKind.op, hko, List.map_cons, List.map_nil, BKind.tag, BKind.ws, rvals, List.cons_append, List.nil_append]
+    simp [List.getD_cons_succ, List.getD_cons_zero, u1, u2, hws.1, hws.2]
+    rfl
 
 mutual
-theorem nsStep_node {d : Bytes} {t : ObjectTree} {h : Nat} (tables : Array Bytes) :
+/-- number of declarations of a node (the fixed arguments of `Processor` / `PowerResource` do not count) -/
+def cntN : Node → Nat
+  | .name _ _ _ _ _ _ => 1
+  | .dev _ _ _ _ _ _ _ _ kids => 1 + cntL kids
+  | .leaf _ _ _ _ _ _ => 1
+def cntL : List Node → Nat
+  | [] => 0
+  | n :: ns => cntN n + cntL ns
+end
+
+mutual
+theorem nsStep_node {d : Bytes} {t : ObjectTree} {h : Nat} (tables : Array Bytes) (htab : tables.getD (h - 1) #[] = d) :
     ∀ (p : Nat) (n : Node) (π : AmlProg.Path) (f i : Nat), NodeOK d t h true true p n → (∀ y ∈ n.objs, y ≠ 0) →
-      2 * sizeN n ≤ f → nsStep t tables f i π n.x = entsN π n
-  | p, .name x c k off q, π, f, i, ok, _, hf => by
+      2 * cntN n ≤ f → nsStep t tables f i π n.x = entsN π n
+  | p, .name x c k off seg dv, π, f, i, ok, _, hf => by
     unfold NodeOK at ok
-    obtain ⟨f', rfl⟩ : ∃ f', f = f' + 2 := ⟨f - 2, by simp only [sizeN] at hf; omega⟩
-    obtain ⟨w1, _, w3⟩ := walk_name ok tables f' (π ++ [nameStr (Name.ofList (q.segs.headD []))])
+    obtain ⟨f', rfl⟩ : ∃ f', f = f' + 2 := ⟨f - 2, by simp only [cntN] at hf; omega⟩
+    obtain ⟨w1, _, w3'⟩ := walk_name ok tables f' (π ++ [nameStr (Name.ofList seg)])
+    have w3 := w3' htab
     have hne : ¬ (slot t x).opcode = 0x1f6 := by rw [ok.opx]; decide
     show nsStep t tables (f' + 2) i π x = _
     unfold nsStep
     rw [pool_live ok.lx]
     simp only [if_neg hne, w3, ok.nm rfl, w1, entsN]
-  | p, .dev x c sb off pw seg kids, π, f, i, ok, h0, hf => by
+  | p, .dev kd x c sb off pw seg es kids, π, f, i, ok, h0, hf => by
     unfold NodeOK at ok
     obtain ⟨dt, hksb, okk⟩ := ok
-    simp only [sizeN] at hf
+    simp only [cntN] at hf
     obtain ⟨f', rfl⟩ : ∃ f', f = f' + 2 := ⟨f - 2, by omega⟩
     have hx0 : x ≠ 0 := h0 x (by simp [Node.objs])
-    have hne : ¬ (slot t x).opcode = 0x1f6 := by rw [dt.opx]; decide
+    have hne : ¬ (slot t x).opcode = 0x1f6 := by rw [dt.opx]; exact kd.op_ne.2.2.2.2.2.1
     obtain ⟨c1, c2, _⟩ := treeDesc_path t tables c (slot t c) dt.opc
     show nsStep t tables (f' + 2) i π x = _
     unfold nsStep
     rw [pool_live dt.lx]
-    simp only [if_neg hne, treeDesc_dev t tables x _ dt.opx, dt.nm rfl, entsN]
+    simp only [if_neg hne, treeDesc_dev dt tables, dt.nm rfl, entsN]
     congr 1
-    -- below the device: the name path (nothing), the scope block (its contents, same path)
-    rw [nsWalk_eq, show K t x = [c, sb] from dt.kx]
-    simp only [List.flatMap_cons, List.flatMap_nil, List.append_nil]
+    -- below the device: the name path and the fixed arguments (nothing), the scope block (its contents, same path)
+    rw [nsWalk_eq, show K t x = c :: (es.map (·.e) ++ [sb]) from dt.kx]
+    simp only [List.flatMap_cons, List.flatMap_append, List.flatMap_nil, List.append_nil]
     rw [nsStep_leaf tables f' x _ dt.lc dt.kc c2 c1, List.nil_append]
+    rw [flatMap_nil' (es.map (·.e)) _ (by
+      intro z hz
+      obtain ⟨a, ha, e⟩ := List.mem_map.1 hz
+      obtain ⟨k1, k2, _⟩ := const_leaf (dt.args a ha) tables
+      rw [← e]
+      exact nsStep_leaf tables f' x _ (dt.args a ha).le (dt.args a ha).ke k2 k1), List.nil_append]
     unfold nsStep
     rw [pool_live dt.lsb]
     have hsbop : (slot t sb).opcode = 0x1f6 := dt.opsb
     simp only [hsbop, if_true, if_neg hx0]
     rw [nsWalk_eq, hksb, tops_true]
-    exact nsStep_list tables sb kids _ f' sb okk (fun y hy => h0 y (by simp [Node.objs, hy])) (by omega)
-theorem nsStep_list {d : Bytes} {t : ObjectTree} {h : Nat} (tables : Array Bytes) :
+    exact nsStep_list tables htab sb kids _ f' sb okk (fun y hy => h0 y (by simp [Node.objs, hy])) (by omega)
+  | p, .leaf kd x c off seg es, π, f, i, ok, _, hf => by
+    unfold NodeOK at ok
+    obtain ⟨f', rfl⟩ : ∃ f', f = f' + 2 := ⟨f - 2, by simp only [cntN] at hf; omega⟩
+    have hne : ¬ (slot t x).opcode = 0x1f6 := by rw [ok.opx]; exact kd.op_ne.2.2.2.2.2.1
+    obtain ⟨c1, c2, _⟩ := treeDesc_path t tables c (slot t c) ok.opc
+    show nsStep t tables (f' + 2) i π x = _
+    unfold nsStep
+    rw [pool_live ok.lx]
+    simp only [if_neg hne, treeDesc_leaf ok tables, ok.nm rfl, entsN]
+    congr 1
+    rw [nsWalk_eq, ok.kx]
+    simp only [List.flatMap_cons]
+    rw [nsStep_leaf tables f' x _ ok.lc ok.kc c2 c1, List.nil_append]
+    apply flatMap_nil'
+    intro z hz
+    obtain ⟨a, ha, e⟩ := List.mem_map.1 hz
+    obtain ⟨k1, k2, _⟩ := const_leaf (ok.args a ha) tables
+    rw [← e]
+    exact nsStep_leaf tables f' x _ (ok.args a ha).le (ok.args a ha).ke k2 k1
+theorem nsStep_list {d : Bytes} {t : ObjectTree} {h : Nat} (tables : Array Bytes) (htab : tables.getD (h - 1) #[] = d) :
     ∀ (p : Nat) (ns : List Node) (π : AmlProg.Path) (f i : Nat), NodesOK d t h true p ns → (∀ y ∈ objsL ns, y ≠ 0) →
-      2 * sizeL ns ≤ f → (ns.map Node.x).flatMap (nsStep t tables f i π) = entsL π ns
+      2 * cntL ns ≤ f → (ns.map Node.x).flatMap (nsStep t tables f i π) = entsL π ns
   | _, [], _, _, _, _, _, _ => by simp [entsL]
   | p, n :: ns, π, f, i, ok, h0, hf => by
     unfold NodesOK at ok
-    simp only [sizeL] at hf
+    simp only [cntL] at hf
     simp only [List.map_cons, List.flatMap_cons, entsL]
-    rw [nsStep_node tables p n π f i ok.1 (fun y hy => h0 y (by simp [objsL, hy])) (by omega),
-      nsStep_list tables p ns π f i ok.2 (fun y hy => h0 y (by simp [objsL, hy])) (by omega)]
+    rw [nsStep_node tables htab p n π f i ok.1 (fun y hy => h0 y (by simp [objsL, hy])) (by omega),
+      nsStep_list tables htab p ns π f i ok.2 (fun y hy => h0 y (by simp [objsL, hy])) (by omega)]
 end
 
 /-- the body of the `flatMap` in `callWalk` -/
@@ -150,59 +299,103 @@ theorem callStep_nil {t : ObjectTree} (f : Nat) {c : Nat} (hl : live t c = true)
 
 mutual
 theorem call_node {d : Bytes} {t : ObjectTree} {h : Nat} :
-    ∀ (p : Nat) (n : Node) (f : Nat), NodeOK d t h true true p n → 2 * sizeN n ≤ f →
+    ∀ (p : Nat) (n : Node) (f : Nat), NodeOK d t h true true p n → 2 * cntN n ≤ f →
       callStep t f n.x = []
-  | p, .name x c k off q, f, ok, hf => by
+  | p, .name x c k off seg dv, f, ok, hf => by
     unfold NodeOK at ok
-    obtain ⟨f', rfl⟩ : ∃ f', f = f' + 2 := ⟨f - 2, by simp only [sizeN] at hf; omega⟩
+    obtain ⟨f', rfl⟩ : ∃ f', f = f' + 2 := ⟨f - 2, by simp only [cntN] at hf; omega⟩
     obtain ⟨_, w2, _⟩ := walk_name ok #[] f' []
     show callStep t (f' + 2) x = []
     exact callStep_nil _ ok.lx (by rw [ok.opx]; decide) w2
-  | p, .dev x c sb off pw seg kids, f, ok, hf => by
+  | p, .dev kd x c sb off pw seg es kids, f, ok, hf => by
     unfold NodeOK at ok
     obtain ⟨dt, hksb, okk⟩ := ok
-    simp only [sizeN] at hf
+    simp only [cntN] at hf
     obtain ⟨f', rfl⟩ : ∃ f', f = f' + 2 := ⟨f - 2, by omega⟩
     show callStep t (f' + 2) x = []
-    refine callStep_nil _ dt.lx (by rw [dt.opx]; decide) ?_
-    rw [callWalk_eq, show K t x = [c, sb] from dt.kx]
-    simp only [List.flatMap_cons, List.flatMap_nil, List.append_nil]
+    refine callStep_nil _ dt.lx (by rw [dt.opx]; exact kd.op_ne.2.2.2.2.2.2.2.2.1) ?_
+    rw [callWalk_eq, show K t x = c :: (es.map (·.e) ++ [sb]) from dt.kx]
+    simp only [List.flatMap_cons, List.flatMap_append, List.flatMap_nil, List.append_nil]
     rw [callStep_nil (f' + 1) dt.lc (by rw [dt.opc]; decide) (callWalk_leaf t f' c dt.kc), List.nil_append]
+    rw [flatMap_nil' (es.map (·.e)) _ (by
+      intro z hz
+      obtain ⟨a, ha, e⟩ := List.mem_map.1 hz
+      obtain ⟨_, _, k3⟩ := const_leaf (dt.args a ha) #[]
+      rw [← e]
+      exact callStep_nil (f' + 1) (dt.args a ha).le k3 (callWalk_leaf t f' a.e (dt.args a ha).ke)), List.nil_append]
     refine callStep_nil _ dt.lsb (by rw [dt.opsb]; decide) ?_
     rw [callWalk_eq, hksb, tops_true]
     exact call_list sb kids f' okk (by omega)
+  | p, .leaf kd x c off seg es, f, ok, hf => by
+    unfold NodeOK at ok
+    obtain ⟨f', rfl⟩ : ∃ f', f = f' + 2 := ⟨f - 2, by simp only [cntN] at hf; omega⟩
+    show callStep t (f' + 2) x = []
+    refine callStep_nil _ ok.lx (by rw [ok.opx]; exact kd.op_ne.2.2.2.2.2.2.2.2.1) ?_
+    rw [callWalk_eq, ok.kx]
+    simp only [List.flatMap_cons]
+    rw [callStep_nil (f' + 1) ok.lc (by rw [ok.opc]; decide) (callWalk_leaf t f' c ok.kc), List.nil_append]
+    apply flatMap_nil'
+    intro z hz
+    obtain ⟨a, ha, e⟩ := List.mem_map.1 hz
+    obtain ⟨_, _, k3⟩ := const_leaf (ok.args a ha) #[]
+    rw [← e]
+    exact callStep_nil (f' + 1) (ok.args a ha).le k3 (callWalk_leaf t f' a.e (ok.args a ha).ke)
 theorem call_list {d : Bytes} {t : ObjectTree} {h : Nat} :
-    ∀ (p : Nat) (ns : List Node) (f : Nat), NodesOK d t h true p ns → 2 * sizeL ns ≤ f →
+    ∀ (p : Nat) (ns : List Node) (f : Nat), NodesOK d t h true p ns → 2 * cntL ns ≤ f →
       (ns.map Node.x).flatMap (callStep t f) = []
   | _, [], _, _, _ => by simp
   | p, n :: ns, f, ok, hf => by
     unfold NodesOK at ok
-    simp only [sizeL] at hf
+    simp only [cntL] at hf
     simp only [List.map_cons, List.flatMap_cons]
     rw [call_node p n f ok.1 (by omega), call_list p ns f ok.2 (by omega)]
     rfl
 end
 
-theorem objsL_len (ns : List Node) : (objsL ns).length = 3 * sizeL ns := by
-  have hn : ∀ n : Node, n.objs.length = 3 * sizeN n := by
+theorem objsL_len (ns : List Node) : 2 * cntL ns ≤ (objsL ns).length := by
+  have hn : ∀ n : Node, 2 * cntN n ≤ n.objs.length := by
     intro n
-    induction n using Node.rec (motive_2 := fun l => (objsL l).length = 3 * sizeL l) with
-    | name x c k off q => simp [Node.objs, sizeN]
-    | dev x c sb off pw seg kids ih => simp only [Node.objs, sizeN, List.length_append, List.length_cons, List.length_nil, ih]; omega
-    | nil => simp [objsL, sizeL]
-    | cons n ns ih1 ih2 => simp only [objsL, sizeL, List.length_append, ih1, ih2]; omega
+    induction n using Node.rec (motive_2 := fun l => 2 * cntL l ≤ (objsL l).length) with
+    | name x c k off seg dv => simp [Node.objs, cntN]
+    | dev kd x c sb off pw seg es kids ih => simp only [Node.objs, cntN, List.length_append, List.length_cons, List.length_nil]; omega
+    | leaf kd x c off seg es => simp only [Node.objs, cntN, List.length_cons]; omega
+    | nil => simp [objsL, cntL]
+    | cons n ns ih1 ih2 => simp only [objsL, cntL, List.length_append]; omega
   induction ns with
-  | nil => simp [objsL, sizeL]
-  | cons n ns ih => simp only [objsL, sizeL, List.length_append, hn n, ih]; omega
+  | nil => simp [objsL, cntL]
+  | cons n ns ih => have := hn n; simp only [objsL, cntL, List.length_append]; omega
+
+mutual
+/-- a placed node has at least as many objects as its size counts -/
+theorem objs_ge {d : Bytes} {t : ObjectTree} {h : Nat} {dk dn : Bool} :
+    ∀ (p : Nat) (n : Node), NodeOK d t h dk dn p n → sizeN n ≤ n.objs.length
+  | _, .name _ _ _ _ _ _, _ => by simp [Node.objs, sizeN]
+  | p, .dev kd x c sb off pw seg es kids, ok => by
+    unfold NodeOK at ok
+    have := objsL_ge sb kids ok.2.2
+    have hel : es.length = kd.ws.length := by rw [← ok.1.wsok, List.length_map]
+    simp only [Node.objs, sizeN, List.length_append, List.length_cons, List.length_nil, List.length_map]
+    omega
+  | _, .leaf _ _ _ _ _ _, _ => by simp [Node.objs, sizeN]
+theorem objsL_ge {d : Bytes} {t : ObjectTree} {h : Nat} {dk : Bool} :
+    ∀ (p : Nat) (ns : List Node), NodesOK d t h dk p ns → sizeL ns ≤ (objsL ns).length
+  | _, [], _ => by simp [objsL, sizeL]
+  | p, n :: ns, ok => by
+    unfold NodesOK at ok
+    have := objs_ge p n ok.1
+    have := objsL_ge p ns ok.2
+    simp only [objsL, sizeL, List.length_append]
+    omega
+end
 
 /-- **the namespace in the pool of a nested program**: the default scopes, then the entries of the nodes in tree order -/
 theorem nsOf_nest {d : Bytes} {t0 t : ObjectTree} {h : Nat} {ns : List Node} (fl : NestT d t0 t h ns) (b : Base t0)
-    (tables : Array Bytes) (hk0 : 1 ≤ (K t0 0).length) :
+    (tables : Array Bytes) (htab : tables.getD (h - 1) #[] = d) (hk0 : 1 ≤ (K t0 0).length) :
     nsOf t tables = flatNs ((K t0 0).map (fun y => ([nameStr (slot t0 y).name], "scope")))
       ((entsL [] ns).map (fun e => (e.1, e.2.1))) := by
   -- enough fuel: the objects of the nodes are distinct live positions
   have hlive : ∀ y ∈ objsL ns, live t y = true := NodesOK.live 0 ns fl.ok
-  have hsz : 3 * sizeL ns + 2 ≤ t.pool.size := by
+  have hsz : 2 * cntL ns + 2 ≤ t.pool.size := by
     -- the root and an old child are two more live positions outside the nodes
     cases hk : K t0 0 with
     | nil => rw [hk] at hk0; simp at hk0
@@ -223,10 +416,11 @@ theorem nsOf_nest {d : Bytes} {t0 t : ObjectTree} {h : Nat} {ns : List Node} (fl
         · rcases List.mem_cons.1 hz with e | hz
           · rw [e]; exact live_lt (fl.old y hyl).1
           · exact live_lt (hlive z hz))
-      simp only [List.length_cons, objsL_len] at this
+      have hol := objsL_len ns
+      simp only [List.length_cons] at this
       omega
   obtain ⟨f, hf⟩ : ∃ f, t.pool.size + 1 = f + 1 := ⟨t.pool.size, rfl⟩
-  have hff : 2 * sizeL ns ≤ f := by omega
+  have hff : 2 * cntL ns ≤ f := by omega
   have h00 : ∀ y ∈ objsL ns, y ≠ 0 := fun y hy e => by have := fl.new y hy; rw [e, b.root] at this; cases this
   have hkt : K t 0 = K t0 0 ++ ns.map Node.x := by rw [fl.k0, tops_true]
   have hwalk : nsWalk t tables (f + 1) 0 [] =
@@ -245,7 +439,7 @@ theorem nsOf_nest {d : Bytes} {t0 t : ObjectTree} {h : Nat} {ns : List Node} (fl
       have hop : (slot t y).opcode = 0x1f6 := by rw [pay_opcode pay]; exact k2
       simp only [hop, if_true, List.nil_append]
       rw [hf', nsWalk_leaf t tables f' y _ (by rw [a4 hy0]; exact k1), pay_name pay]
-    · exact nsStep_list tables 0 ns [] f 0 fl.ok h00 hff
+    · exact nsStep_list tables htab 0 ns [] f 0 fl.ok h00 hff
   have hcalls : callWalk t (f + 1) 0 = [] := by
     rw [callWalk_eq, hkt, List.flatMap_append, List.append_eq_nil_iff]
     constructor
@@ -264,16 +458,26 @@ theorem nsOf_nest {d : Bytes} {t0 t : ObjectTree} {h : Nat} {ns : List Node} (fl
 
 /-! ## the programs of the nested fragment -/
 
-/-- `Name(str, integer)` or `Device(str){…}` (PkgLength width `pw`) -/
+/-- `Name(str, integer)`, `Name(str, string)`, `Device(str){…}` / `ThermalZone(str){…}` / `Processor(str, id, addr, len){…}` /
+`PowerResource(str, level, order){…}` (PkgLength width `pw`, fixed arguments `vals`), `Event(str)`, `Mutex(str, sync)` -/
 inductive NObj where
   | name (str : String) (w v : Nat)
-  | dev (pw : Nat) (str : String) (body : List NObj)
+  | dev (kd : BKind) (pw : Nat) (str : String) (vals : List Nat) (body : List NObj)
+  | event (str : String)
+  | mutex (str : String) (sync : Nat)
+  | sname (str : String) (s : List UInt8)
 
 mutual
 /-- the declaration of the grammar subset (`AmlProg.Obj`) -/
 def NObj.obj : NObj → AmlProg.Obj
   | .name str w v => .name { segs := [str] } (.int w v)
-  | .dev pw str body => .device pw { segs := [str] } (objsOf body)
+  | .dev .device pw str _ body => .device pw { segs := [str] } (objsOf body)
+  | .dev .thermal pw str _ body => .thermal pw { segs := [str] } (objsOf body)
+  | .dev .proc pw str vals body => .processor pw { segs := [str] } (vals.getD 0 0) (vals.getD 1 0) (vals.getD 2 0) (objsOf body)
+  | .dev .power pw str vals body => .powerres pw { segs := [str] } (vals.getD 0 0) (vals.getD 1 0) (objsOf body)
+  | .event str => .event { segs := [str] }
+  | .mutex str sync => .mutex { segs := [str] } sync
+  | .sname str s => .name { segs := [str] } (.str s)
 def objsOf : List NObj → List AmlProg.Obj
   | [] => []
   | o :: os => o.obj :: objsOf os
@@ -281,8 +485,11 @@ end
 
 mutual
 def NObj.p : NObj → PObj
-  | .name str w v => .name ⟨false, 0, [segBytes str], w, v⟩
-  | .dev pw str body => .dev pw (segBytes str) (psOf body)
+  | .name str w v => .name (segBytes str) (.int w v)
+  | .dev kd pw str vals body => .dev kd pw (segBytes str) vals (psOf body)
+  | .event str => .leaf .event (segBytes str) []
+  | .mutex str sync => .leaf .mutex (segBytes str) [sync]
+  | .sname str s => .name (segBytes str) (.str s)
 def psOf : List NObj → List PObj
   | [] => []
   | o :: os => o.p :: psOf os
@@ -292,7 +499,11 @@ mutual
 /-- well-formed segments, integer widths the encoder writes, PkgLength widths that hold the package length -/
 def NObj.OK : NObj → Prop
   | .name str w _ => SegOK str ∧ IntW w
-  | .dev pw str body => 1 ≤ pw ∧ pw ≤ 4 ∧ pw + (4 + (encPs (psOf body)).length) < pkgBoundF pw ∧ SegOK str ∧ oksOf body
+  | .dev kd pw str vals body => 1 ≤ pw ∧ pw ≤ 4 ∧ pw + (4 + (kd.ws.sum + (encPs (psOf body)).length)) < pkgBoundF pw ∧ SegOK str ∧
+      kd.ws.length = vals.length ∧ oksOf body
+  | .event str => SegOK str
+  | .mutex str _ => SegOK str
+  | .sname str s => SegOK str ∧ ∀ b ∈ s, 1 ≤ b ∧ b ≤ 0x7f
 def oksOf : List NObj → Prop
   | [] => True
   | o :: os => o.OK ∧ oksOf os
@@ -302,7 +513,10 @@ mutual
 /-- the namespace entries ACPI's scoping rules give the declarations below the path `π` -/
 def entsO (π : AmlProg.Path) : NObj → List (AmlProg.Path × String)
   | .name str w v => [(π ++ [str], entryDesc w v)]
-  | .dev _ str body => (π ++ [str], "device") :: entsOL (π ++ [str]) body
+  | .dev kd _ str vals body => (π ++ [str], kd.tag (rvals kd.ws vals)) :: entsOL (π ++ [str]) body
+  | .event str => [(π ++ [str], "event")]
+  | .mutex str sync => [(π ++ [str], s!"mutex:{sync % 256}")]
+  | .sname str s => [(π ++ [str], nameDesc (.str s))]
 def entsOL (π : AmlProg.Path) : List NObj → List (AmlProg.Path × String)
   | [] => []
   | o :: os => entsO π o ++ entsOL π os
@@ -325,15 +539,48 @@ theorem seg_nameOK {str : String} (h : SegOK str) : NameOK [segBytes str] := by
     have : (UInt8.ofNat c.toNat).toNat = c.toNat := by simp [UInt8.toNat_ofNat, Nat.mod_eq_of_lt hclt]
     rw [this]; exact hcc
 
+theorem ofNat_mod256 (v : Nat) : UInt8.ofNat (v % 256) = UInt8.ofNat v := by
+  apply UInt8.toNat_inj.1
+  simp [UInt8.toNat_ofNat]
+
 mutual
-theorem enc_nobj : ∀ o : NObj, encObj o.obj = encP o.p
-  | .name str w v => by simp [NObj.obj, NObj.p, encObj, encP, Decl.enc, encNameP, encData]
-  | .dev pw str body => by
-    simp only [NObj.obj, NObj.p, encObj, encP, encPkg, encNameP, encName, enc_nobjs body]
-    simp [List.length_append]
-theorem enc_nobjs : ∀ l : List NObj, encObjs (objsOf l) = encPs (psOf l)
-  | [] => by simp [objsOf, psOf, encObjs, encPs]
-  | o :: os => by simp [objsOf, psOf, encObjs, encPs, enc_nobj o, enc_nobjs os]
+theorem enc_nobj : ∀ o : NObj, o.OK → encObj o.obj = encP o.p
+  | .name str w v, _ => by simp [NObj.obj, NObj.p, encObj, encP, DVal.enc, encNameP, encName, encData]
+  | .sname str s, _ => by simp [NObj.obj, NObj.p, encObj, encP, DVal.enc, encNameP, encName, encData]
+  | .dev kd pw str vals body, hok => by
+    have hb := enc_nobjs body (by unfold NObj.OK at hok; exact hok.2.2.2.2.2)
+    have hvl : kd.ws.length = vals.length := by unfold NObj.OK at hok; exact hok.2.2.2.2.1
+    cases kd with
+    | device =>
+      simp only [NObj.obj, NObj.p, encObj, encP, encPkg, encNameP, encName, hb, BKind.b2, BKind.ws, encVals]
+      simp [List.length_append]
+    | thermal =>
+      simp only [NObj.obj, NObj.p, encObj, encP, encPkg, encNameP, encName, hb, BKind.b2, BKind.ws, encVals]
+      simp [List.length_append]
+    | proc =>
+      obtain ⟨a1, a2, a3, rfl⟩ : ∃ a1 a2 a3, vals = [a1, a2, a3] := len3 (by simpa [BKind.ws] using hvl.symm)
+      simp only [NObj.obj, NObj.p, encObj, encP, encPkg, encNameP, encName, hb, BKind.b2, BKind.ws, encVals, List.getD_cons_zero,
+        List.getD_cons_succ]
+      simp [List.length_append, encConst, List.range_succ, ofNat_mod256]
+      congr 1
+      omega
+    | power =>
+      obtain ⟨a1, a2, rfl⟩ : ∃ a1 a2, vals = [a1, a2] := len2 (by simpa [BKind.ws] using hvl.symm)
+      simp only [NObj.obj, NObj.p, encObj, encP, encPkg, encNameP, encName, hb, BKind.b2, BKind.ws, encVals, List.getD_cons_zero,
+        List.getD_cons_succ]
+      simp [List.length_append, encConst, List.range_succ, ofNat_mod256]
+      congr 1
+      omega
+  | .event str, _ => by simp [NObj.obj, NObj.p, encObj, encP, encNameP, encName, encVals, LKind.b2]
+  | .mutex str sync, _ => by
+    simp [NObj.obj, NObj.p, encObj, encP, encNameP, encName, encVals, LKind.b2, LKind.ws, encConst, List.range_succ]
+    apply UInt8.toNat_inj.1
+    simp [UInt8.toNat_ofNat]
+theorem enc_nobjs : ∀ l : List NObj, oksOf l → encObjs (objsOf l) = encPs (psOf l)
+  | [], _ => by simp [objsOf, psOf, encObjs, encPs]
+  | o :: os, hok => by
+    unfold oksOf at hok
+    simp [objsOf, psOf, encObjs, encPs, enc_nobj o hok.1, enc_nobjs os hok.2]
 end
 
 mutual
@@ -341,13 +588,24 @@ theorem ok_nobj : ∀ o : NObj, o.OK → okP o.p
   | .name str w v, h => by
     unfold NObj.OK at h
     unfold NObj.p okP
-    have := decl_ok (a := ⟨str, w, v⟩) h
-    exact this
-  | .dev pw str body, h => by
+    exact ⟨seg_nameOK h.1, seg_len h.1, h.2⟩
+  | .sname str s, h => by
     unfold NObj.OK at h
-    obtain ⟨h1, h2, h3, h4, h5⟩ := h
     unfold NObj.p okP
-    exact ⟨h1, h2, by rw [seg_len h4]; exact h3, seg_nameOK h4, seg_len h4, ok_nobjs body h5⟩
+    exact ⟨seg_nameOK h.1, seg_len h.1, h.2⟩
+  | .dev kd pw str vals body, h => by
+    unfold NObj.OK at h
+    obtain ⟨h1, h2, h3, h4, h5, h6⟩ := h
+    unfold NObj.p okP
+    exact ⟨h1, h2, by rw [seg_len h4, encVals_len _ _ h5]; exact h3, seg_nameOK h4, seg_len h4, h5, ok_nobjs body h6⟩
+  | .event str, h => by
+    unfold NObj.OK at h
+    unfold NObj.p okP
+    exact ⟨seg_nameOK h, seg_len h, rfl⟩
+  | .mutex str sync, h => by
+    unfold NObj.OK at h
+    unfold NObj.p okP
+    exact ⟨seg_nameOK h, seg_len h, rfl⟩
 theorem ok_nobjs : ∀ l : List NObj, oksOf l → okPs (psOf l)
   | [], _ => by unfold psOf okPs; trivial
   | o :: os, h => by
@@ -363,22 +621,60 @@ theorem ents_node : ∀ (o : NObj) (n : Node) (π : AmlProg.Path), o.OK → n.pr
   | .name str w v, n, π, hok, hp => by
     unfold NObj.OK at hok
     cases n with
-    | name x c k off q =>
+    | name x c k off seg dv =>
       simp only [Node.prog, NObj.p, PObj.name.injEq] at hp
-      subst hp
-      simp only [entsN, entsO, List.map_cons, List.map_nil, List.headD_cons]
-      rw [nameStr_seg hok.1]
-    | dev x c sb off pw seg kids => simp [Node.prog, NObj.p] at hp
-  | .dev pw str body, n, π, hok, hp => by
+      obtain ⟨hseg, hdv⟩ := hp
+      rw [hseg, hdv]
+      simp only [entsN, entsO, List.map_cons, List.map_nil]
+      rw [nameStr_seg hok.1, nameDesc_int]
+    | dev kd x c sb off pw seg es kids => simp [Node.prog, NObj.p] at hp
+    | leaf kd x c off seg es => simp [Node.prog, NObj.p] at hp
+  | .sname str s, n, π, hok, hp => by
     unfold NObj.OK at hok
     cases n with
-    | name x c k off q => simp [Node.prog, NObj.p] at hp
-    | dev x c sb off pw' seg kids =>
+    | name x c k off seg dv =>
+      simp only [Node.prog, NObj.p, PObj.name.injEq] at hp
+      obtain ⟨hseg, hdv⟩ := hp
+      rw [hseg, hdv]
+      simp only [entsN, entsO, List.map_cons, List.map_nil]
+      rw [nameStr_seg hok.1]
+    | dev kd x c sb off pw seg es kids => simp [Node.prog, NObj.p] at hp
+    | leaf kd x c off seg es => simp [Node.prog, NObj.p] at hp
+  | .dev kd pw str vals body, n, π, hok, hp => by
+    unfold NObj.OK at hok
+    cases n with
+    | name x c k off seg' dv => simp [Node.prog, NObj.p] at hp
+    | dev kd' x c sb off pw' seg es kids =>
       simp only [Node.prog, NObj.p, PObj.dev.injEq] at hp
-      obtain ⟨_, hseg, hkids⟩ := hp
-      subst hseg
+      obtain ⟨hkd, _, hseg, hvals, hkids⟩ := hp
+      rw [hseg, hkd]
       simp only [entsN, entsO, List.map_cons]
-      rw [nameStr_seg hok.2.2.2.1, ents_list body kids _ hok.2.2.2.2 hkids]
+      rw [nameStr_seg hok.2.2.2.1, ents_list body kids _ hok.2.2.2.2.2 hkids, hvals]
+    | leaf kd x c off seg es => simp [Node.prog, NObj.p] at hp
+  | .event str, n, π, hok, hp => by
+    unfold NObj.OK at hok
+    cases n with
+    | name x c k off seg' dv => simp [Node.prog, NObj.p] at hp
+    | dev kd' x c sb off pw' seg es kids => simp [Node.prog, NObj.p] at hp
+    | leaf kd x c off seg es =>
+      simp only [Node.prog, NObj.p, PObj.leaf.injEq] at hp
+      obtain ⟨hkd, hseg, hes⟩ := hp
+      rw [hseg, hkd]
+      simp only [entsN, entsO, List.map_cons, List.map_nil]
+      rw [nameStr_seg hok]
+      rfl
+  | .mutex str sync, n, π, hok, hp => by
+    unfold NObj.OK at hok
+    cases n with
+    | name x c k off seg' dv => simp [Node.prog, NObj.p] at hp
+    | dev kd' x c sb off pw' seg es kids => simp [Node.prog, NObj.p] at hp
+    | leaf kd x c off seg es =>
+      simp only [Node.prog, NObj.p, PObj.leaf.injEq] at hp
+      obtain ⟨hkd, hseg, hes⟩ := hp
+      rw [hseg, hkd]
+      simp only [entsN, entsO, List.map_cons, List.map_nil]
+      rw [nameStr_seg hok, hes]
+      simp [ldesc, rvals, LKind.ws]
 theorem ents_list : ∀ (l : List NObj) (ns : List Node) (π : AmlProg.Path), oksOf l → progs ns = psOf l →
     (entsL π ns).map (fun e => (e.1, e.2.1)) = entsOL π l
   | [], ns, π, _, hp => by
@@ -426,11 +722,36 @@ theorem add_fresh (defs ents : List (AmlProg.Path × String)) (π : AmlProg.Path
 theorem declPath_rel (π : AmlProg.Path) (str : String) : declPath π { segs := [str] } = some (π ++ [str]) := by
   simp [declPath]
 
+/-- the scoping rule for a scoped object: declare it, then its body below it -/
+theorem declObj_blk (kd : BKind) (pw : Nat) (str : String) (vals : List Nat) (body : List NObj) (π : AmlProg.Path) (st : NsSt)
+    (hvl : kd.ws.length = vals.length) :
+    declObj π (NObj.dev kd pw str vals body).obj st =
+      declObjs (π ++ [str]) (objsOf body) (st.add (π ++ [str]) (kd.tag (rvals kd.ws vals))) := by
+  cases kd with
+  | device =>
+    unfold NObj.obj
+    rw [declObj, declPath_rel]
+    rfl
+  | thermal =>
+    unfold NObj.obj
+    rw [declObj, declPath_rel]
+    rfl
+  | proc =>
+    obtain ⟨a1, a2, a3, rfl⟩ : ∃ a1 a2 a3, vals = [a1, a2, a3] := len3 (by simpa [BKind.ws] using hvl.symm)
+    unfold NObj.obj
+    rw [declObj, declPath_rel]
+    simp [BKind.tag, BKind.ws, rvals]
+  | power =>
+    obtain ⟨a1, a2, rfl⟩ : ∃ a1 a2, vals = [a1, a2] := len2 (by simpa [BKind.ws] using hvl.symm)
+    unfold NObj.obj
+    rw [declObj, declPath_rel]
+    simp [BKind.tag, BKind.ws, rvals]
+
 mutual
 theorem declObj_nest : ∀ (o : NObj) (π : AmlProg.Path) (defs ents : List (AmlProg.Path × String)),
-    (π = [] ∨ π ∈ (defs ++ ents).map (·.1)) → ((defs ++ ents).map (·.1) ++ (entsO π o).map (·.1)).Nodup →
+    (π = [] ∨ π ∈ (defs ++ ents).map (·.1)) → ((defs ++ ents).map (·.1) ++ (entsO π o).map (·.1)).Nodup → o.OK →
     declObj π o.obj { ns := flatNs defs ents, pending := [] } = { ns := flatNs defs (ents ++ entsO π o), pending := [] }
-  | .name str w v, π, defs, ents, hπ, hnd => by
+  | .name str w v, π, defs, ents, hπ, hnd, _ => by
     unfold NObj.obj
     rw [declObj, declPath_rel]
     simp only
@@ -441,7 +762,21 @@ theorem declObj_nest : ∀ (o : NObj) (π : AmlProg.Path) (defs ents : List (Aml
     have := add_fresh defs ents π str s!"name:{dataDesc (.int w v)}" hn hπ
     rw [this]
     simp [entsO, entryDesc, dataDesc]
-  | .dev pw str body, π, defs, ents, hπ, hnd => by
+  | .dev kd pw str vals body, π, defs, ents, hπ, hnd, hok => by
+    have hvl : kd.ws.length = vals.length := by unfold NObj.OK at hok; exact hok.2.2.2.2.1
+    have hokb : oksOf body := by unfold NObj.OK at hok; exact hok.2.2.2.2.2
+    rw [declObj_blk kd pw str vals body π _ hvl]
+    have hn : π ++ [str] ∉ (defs ++ ents).map (·.1) := by
+      rw [List.nodup_append] at hnd
+      intro hm
+      exact hnd.2.2 _ hm _ (by simp [entsO]) rfl
+    rw [add_fresh defs ents π str (kd.tag (rvals kd.ws vals)) hn hπ]
+    rw [declObjs_nest body (π ++ [str]) defs (ents ++ [(π ++ [str], kd.tag (rvals kd.ws vals))]) (Or.inr (by simp)) (by
+      have : (defs ++ (ents ++ [(π ++ [str], kd.tag (rvals kd.ws vals))])).map (·.1) ++ (entsOL (π ++ [str]) body).map (·.1) =
+          (defs ++ ents).map (·.1) ++ (entsO π (.dev kd pw str vals body)).map (·.1) := by simp [entsO]
+      rw [this]; exact hnd) hokb]
+    simp [entsO]
+  | .sname str s, π, defs, ents, hπ, hnd, _ => by
     unfold NObj.obj
     rw [declObj, declPath_rel]
     simp only
@@ -449,17 +784,35 @@ theorem declObj_nest : ∀ (o : NObj) (π : AmlProg.Path) (defs ents : List (Aml
       rw [List.nodup_append] at hnd
       intro hm
       exact hnd.2.2 _ hm _ (by simp [entsO]) rfl
-    rw [add_fresh defs ents π str "device" hn hπ]
-    rw [declObjs_nest body (π ++ [str]) defs (ents ++ [(π ++ [str], "device")]) (Or.inr (by simp)) (by
-      have : (defs ++ (ents ++ [(π ++ [str], "device")])).map (·.1) ++ (entsOL (π ++ [str]) body).map (·.1) =
-          (defs ++ ents).map (·.1) ++ (entsO π (.dev pw str body)).map (·.1) := by simp [entsO]
-      rw [this]; exact hnd)]
+    have := add_fresh defs ents π str s!"name:{dataDesc (.str s)}" hn hπ
+    rw [this]
+    simp [entsO, nameDesc, DVal.desc, dataDesc]
+  | .event str, π, defs, ents, hπ, hnd, _ => by
+    unfold NObj.obj
+    rw [declObj, declPath_rel]
+    simp only
+    have hn : π ++ [str] ∉ (defs ++ ents).map (·.1) := by
+      rw [List.nodup_append] at hnd
+      intro hm
+      exact hnd.2.2 _ hm _ (by simp [entsO]) rfl
+    rw [add_fresh defs ents π str "event" hn hπ]
+    simp [entsO]
+  | .mutex str sync, π, defs, ents, hπ, hnd, _ => by
+    unfold NObj.obj
+    rw [declObj, declPath_rel]
+    simp only
+    have hn : π ++ [str] ∉ (defs ++ ents).map (·.1) := by
+      rw [List.nodup_append] at hnd
+      intro hm
+      exact hnd.2.2 _ hm _ (by simp [entsO]) rfl
+    rw [add_fresh defs ents π str s!"mutex:{sync % 256}" hn hπ]
     simp [entsO]
 theorem declObjs_nest : ∀ (l : List NObj) (π : AmlProg.Path) (defs ents : List (AmlProg.Path × String)),
-    (π = [] ∨ π ∈ (defs ++ ents).map (·.1)) → ((defs ++ ents).map (·.1) ++ (entsOL π l).map (·.1)).Nodup →
+    (π = [] ∨ π ∈ (defs ++ ents).map (·.1)) → ((defs ++ ents).map (·.1) ++ (entsOL π l).map (·.1)).Nodup → oksOf l →
     declObjs π (objsOf l) { ns := flatNs defs ents, pending := [] } = { ns := flatNs defs (ents ++ entsOL π l), pending := [] }
-  | [], π, defs, ents, _, _ => by simp [objsOf, declObjs, entsOL]
-  | o :: os, π, defs, ents, hπ, hnd => by
+  | [], π, defs, ents, _, _, _ => by simp [objsOf, declObjs, entsOL]
+  | o :: os, π, defs, ents, hπ, hnd, hok => by
+    unfold oksOf at hok
     unfold objsOf
     rw [declObjs]
     have hnd' : ((defs ++ ents).map (·.1) ++ ((entsO π o).map (·.1) ++ (entsOL π os).map (·.1))).Nodup := by
@@ -469,46 +822,53 @@ theorem declObjs_nest : ∀ (l : List NObj) (π : AmlProg.Path) (defs ents : Lis
       exact hnd
     rw [declObj_nest o π defs ents hπ (by
       rw [← List.append_assoc] at hnd'
-      exact (List.nodup_append.1 hnd').1)]
+      exact (List.nodup_append.1 hnd').1) hok.1]
     rw [declObjs_nest os π defs (ents ++ entsO π o) (by
       rcases hπ with e | hm
       · exact Or.inl e
       · exact Or.inr (by simp only [List.map_append, List.mem_append] at hm ⊢; rcases hm with h | h <;> simp [h])) (by
       have : (defs ++ (ents ++ entsO π o)).map (·.1) ++ (entsOL π os).map (·.1) =
           (defs ++ ents).map (·.1) ++ ((entsO π o).map (·.1) ++ (entsOL π os).map (·.1)) := by simp
-      rw [this]; exact hnd')]
+      rw [this]; exact hnd') hok.2]
     simp [entsOL]
 end
 
 /-- **the namespace of a nested program**: the default scopes, then the entries of the declarations in order -/
-theorem namespaceOf_nest (l : List NObj) (hnd : (defaultNs.objs.map (·.1) ++ (entsOL [] l).map (·.1)).Nodup) :
+theorem namespaceOf_nest (l : List NObj) (hok : oksOf l) (hnd : (defaultNs.objs.map (·.1) ++ (entsOL [] l).map (·.1)).Nodup) :
     namespaceOf [objsOf l] = flatNs defaultNs.objs (entsOL [] l) := by
   unfold namespaceOf
   simp only [List.foldl_cons, List.foldl_nil]
   have h0 : ({ ns := defaultNs } : NsSt) = { ns := flatNs defaultNs.objs [], pending := [] } := by
     unfold flatNs defaultNs; simp
-  rw [h0, declObjs_nest l [] defaultNs.objs [] (Or.inl rfl) (by simpa using hnd)]
+  rw [h0, declObjs_nest l [] defaultNs.objs [] (Or.inl rfl) (by simpa using hnd) hok]
   unfold resolveCalls
   simp
 
 mutual
-theorem encP_len : ∀ o : PObj, sizeP o ≤ (encP o).length ∧ closesP o ≤ sizeP o
-  | .name q => by simp [sizeP, closesP, encP, Decl.enc]
-  | .dev pw seg body => by
-    have := encPs_len body
+theorem encP_len : ∀ o : PObj, okP o → sizeP o ≤ (encP o).length ∧ closesP o ≤ sizeP o
+  | .name seg dv, _ => by simp [sizeP, closesP, encP]
+  | .dev kd pw seg vals body, hok => by
+    unfold okP at hok
+    have := encPs_len body hok.2.2.2.2.2.2
+    have hv := encVals_len kd.ws vals hok.2.2.2.2.2.1
+    have hs : kd.ws.length ≤ kd.ws.sum := by cases kd <;> simp [BKind.ws]
     simp only [sizeP, closesP, encP, List.length_append, List.length_cons, List.length_nil]
     omega
-theorem encPs_len : ∀ os : List PObj, sizePs os ≤ (encPs os).length ∧ closesPs os ≤ sizePs os
-  | [] => by simp [sizePs, closesPs, encPs]
-  | o :: os => by
-    have := encP_len o
-    have := encPs_len os
+  | .leaf kd seg vals, _ => by simp [sizeP, closesP, encP]
+theorem encPs_len : ∀ os : List PObj, okPs os → sizePs os ≤ (encPs os).length ∧ closesPs os ≤ sizePs os
+  | [], _ => by simp [sizePs, closesPs, encPs]
+  | o :: os, hok => by
+    unfold okPs at hok
+    have := encP_len o hok.1
+    have := encPs_len os hok.2
     simp only [sizePs, closesPs, encPs, List.length_append]
     omega
 end
 
-/-- **C11 for the nested fragment.**  For every program made of `Device(NAME){…}` — nested to any depth, every PkgLength
-width — and `Name(NAME, integer)` declarations (every integer width and value; well-formed single-segment names; all
+/-- **C11 for the nested fragment.**  For every program made of `Device(NAME){…}` / `ThermalZone(NAME){…}` /
+`Processor(NAME, id, addr, len){…}` / `PowerResource(NAME, level, order){…}` — nested to any depth, every PkgLength width, every
+value of the fixed arguments —, `Name(NAME, integer)`, `Name(NAME, "string")`, `Event(NAME)` and `Mutex(NAME, sync)` declarations
+(every integer width and value, every ASCII string, every sync byte; well-formed single-segment names; all
 absolute paths distinct and different from the default scopes), loaded as one table into the default namespace: the
 program is well-scoped, the parser (model) accepts the encoded table, and the namespace read off the resulting object tree
 — every named object at the ABSOLUTE PATH its enclosing devices give it, with its kind and value — is exactly the
@@ -518,12 +878,12 @@ theorem agrees_nest (l : List NObj) (hok : oksOf l)
     (hlen : (AmlProg.encode (objsOf l)).length ≤ 1000000000) :
     agrees [objsOf l] = true := by
   obtain ⟨t, ht, tg, b, hnames, hsz6⟩ := default_tree
-  have henc : AmlProg.encode (objsOf l) = encPs (psOf l) := by unfold AmlProg.encode; exact enc_nobjs l
+  have henc : AmlProg.encode (objsOf l) = encPs (psOf l) := by unfold AmlProg.encode; exact enc_nobjs l hok
   generalize hpl : (AmlProg.encode (objsOf l)).toArray = pl
   have hpll : pl.toList = encPs (psOf l) := by rw [← hpl, ← henc]
   have hplen : pl.size = (encPs (psOf l)).length := by rw [← hpll]; simp
   have hlen' : (encPs (psOf l)).length ≤ 1000000000 := by rw [← henc]; exact hlen
-  obtain ⟨hn1, hn2⟩ := encPs_len (psOf l)
+  obtain ⟨hn1, hn2⟩ := encPs_len (psOf l) (ok_nobjs l hok)
   let d := mkTable pl
   have hdsz : d.size = headerLen + pl.size := mkTable_size pl
   have hK0 : (K t 0).length = 5 := by
@@ -535,9 +895,9 @@ theorem agrees_nest (l : List NObj) (hok : oksOf l)
     { tree := t } tg b (by show t.pool.size + 3 * sizePs (psOf l) < INV; rw [hsz6, show INV = 4294967295 from rfl]; omega)
     (fuelFor d t) (by show 8 * sizePs (psOf l) + (K t 0).length + closesPs (psOf l) + 13 ≤ fuelFor d t
                       rw [hK0]; unfold fuelFor; rw [hdsz, hplen]; omega) 1
-  have hns := nsOf_nest fl b #[d] (by rw [hK0]; decide)
+  have hns := nsOf_nest fl b #[d] (by simp) (by rw [hK0]; decide)
   rw [hnames, ents_list l ns [] hok hp] at hns
-  have hspec := namespaceOf_nest l hnd
+  have hspec := namespaceOf_nest l hok hnd
   have hmodel : modelNs [objsOf l] = some (flatNs defaultNs.objs (entsOL [] l)) := by
     unfold modelNs
     rw [ht]
@@ -589,8 +949,11 @@ theorem intW_of_b {w : Nat} (h : intWb w = true) : IntW w := by
 mutual
 def okB : NObj → Bool
   | .name str w _ => segOKb str && intWb w
-  | .dev pw str body => decide (1 ≤ pw) && decide (pw ≤ 4) && decide (pw + (4 + (encPs (psOf body)).length) < pkgBoundF pw) &&
-      segOKb str && oksB body
+  | .dev kd pw str vals body => decide (1 ≤ pw) && decide (pw ≤ 4) &&
+      decide (pw + (4 + (kd.ws.sum + (encPs (psOf body)).length)) < pkgBoundF pw) && segOKb str && decide (kd.ws.length = vals.length) && oksB body
+  | .event str => segOKb str
+  | .mutex str _ => segOKb str
+  | .sname str s => segOKb str && s.all (fun b => decide (1 ≤ b) && decide (b ≤ 0x7f))
 def oksB : List NObj → Bool
   | [] => true
   | o :: os => okB o && oksB os
@@ -603,11 +966,24 @@ theorem ok_of_b : ∀ o : NObj, okB o = true → o.OK
     simp only [Bool.and_eq_true] at h
     unfold NObj.OK
     exact ⟨segOK_of_b h.1, intW_of_b h.2⟩
-  | .dev pw str body, h => by
+  | .dev kd pw str vals body, h => by
     unfold okB at h
     simp only [Bool.and_eq_true, decide_eq_true_eq] at h
     unfold NObj.OK
-    exact ⟨h.1.1.1.1, h.1.1.1.2, h.1.1.2, segOK_of_b h.1.2, oks_of_b body h.2⟩
+    exact ⟨h.1.1.1.1.1, h.1.1.1.1.2, h.1.1.1.2, segOK_of_b h.1.1.2, h.1.2, oks_of_b body h.2⟩
+  | .event str, h => by
+    unfold okB at h
+    unfold NObj.OK
+    exact segOK_of_b h
+  | .mutex str sync, h => by
+    unfold okB at h
+    unfold NObj.OK
+    exact segOK_of_b h
+  | .sname str s, h => by
+    unfold okB at h
+    simp only [Bool.and_eq_true, List.all_eq_true, decide_eq_true_eq] at h
+    unfold NObj.OK
+    exact ⟨segOK_of_b h.1, h.2⟩
 theorem oks_of_b : ∀ l : List NObj, oksB l = true → oksOf l
   | [], _ => by unfold oksOf; trivial
   | o :: os, h => by
